@@ -288,3 +288,116 @@ class EscapeIsSafe(Contract):
     r = interp.resolve(outcome[1])
     return len(calls) == 1 and interp.resolve(calls[0].data[0]) is interp.resolve(env['s']) \
         and isinstance(r, SAny) and r.label == 'safe'
+
+
+# ---- Html.element: attribute values are data -------------------------------------------
+#
+# The element constructor is the one place where attribute values (css classes, inline
+# styles, keyword properties) are turned into markup.  Ghost labels: an attribute value is
+# `raw`; `html.escape(x, quote=False)` makes it `esc-noquote` (markup neutralised, the
+# double quote still live); only `.replace('"', '&quot;')` on that makes it `safe`.
+# Obligation: whatever is written into the open tag is `safe` -- a value that reaches
+# `write` raw or with a live quote could close the attribute and introduce its own.
+
+@register
+class ElementAttributesAreEscaped(Contract):
+  prop = 'C20'
+  target = f'{HB}:Html.element'
+  raises = {Exception: ()}
+  max_paths = 3000
+
+  def inputs(self, b):
+    self._css = b.choice('css_classes_kind', [None, raw('css_classes')])
+    self._styles = b.choice('styles_kind', [None, raw('styles')])
+    self._title = b.choice('property_kind', [None, raw('title')])
+    kw = dict(options=None, css_classes=self._css, styles=self._styles,
+              title=self._title, data_x=raw('data_x'))
+    return dict(cls=Html, tag='div', inner_html=b.choice('inner_kind', [None, PList(['<td>'])]), **kw), {}
+
+  def setup_policy(self, policy):
+    import builtins
+
+    def sink(interp, what, v, frame):
+      v = interp.resolve(v)
+      if v is None or isinstance(v, (str, int)):
+        lab = 'safe'
+      elif isinstance(v, SAny):
+        lab = v.label or 'unknown'
+      else:
+        lab = 'unknown'
+      interp.path.event('sink', 'ok' if lab in ('safe', 'html') else 'violation', f'{what}: {lab}')
+
+    policy.handlers[('new', Html)] = lambda interp, a, k, f: SAny('Html()', label='html')
+
+    def passthrough(name):
+      def h(interp, args, kwargs, frame):
+        a = [x for x in args if not isinstance(x, type)]
+        v = interp.resolve(a[0]) if a else None
+        if v is None:
+          return None
+        return SAny(f'{name}()', label=getattr(v, 'label', None) or 'unknown')
+      return h
+    policy.handlers[id(Html.concate.__func__)] = passthrough('concate')
+    policy.handlers[id(Html.style_str.__func__)] = passthrough('style_str')
+
+    def str_h(interp, args, kwargs, frame):
+      v = interp.resolve(args[0]) if args else ''
+      if I.is_concrete(v):
+        return str(v)
+      return SAny('str()', label=getattr(v, 'label', None) or 'unknown')
+    policy.handlers[id(builtins.str)] = str_h
+
+    def esc(interp, args, kwargs, frame):
+      v = interp.resolve(args[0])
+      quote = interp.resolve(kwargs.get('quote', args[1] if len(args) > 1 else True))
+      interp.path.event('html.escape', 'called', (v, quote))
+      if I.is_concrete(v):
+        return html_lib.escape(v, quote=bool(quote))
+      return SAny('escaped', label='safe' if quote is True else 'esc-noquote')
+    policy.handlers[id(html_lib.escape)] = esc
+
+    def call_opaque(interp, fn, args, kwargs, frame):
+      name = fn.tag.rsplit('.', 1)[-1]
+      if fn.label == 'html':
+        if name == 'write':
+          for k, a in enumerate(args):
+            sink(interp, f'Html.write arg{k}', a, frame)
+        return SAny(fn.tag + '()', label='html')
+      if name == 'replace':
+        a = [interp.resolve(x) for x in args]
+        if fn.label == 'esc-noquote' and a == ['"', '&quot;']:
+          return SAny('attr-escaped', label='safe')
+        return SAny(fn.tag + '()', label=fn.label)
+      return NotImplemented
+    policy.handlers[('call_opaque',)] = call_opaque
+
+    def fstring(interp, e, frame, labels):
+      return SAny('fstr', label='safe' if all(l in ('safe', 'num') for l in labels) else 'raw')
+    policy.handlers[('fstring',)] = fstring
+
+  def trace_attribute_data_is_written_only_escaped(self, events, outcome, interp, env):
+    return not [e for e in events if e.kind == 'sink' and e.what == 'violation']
+
+  def trace_every_given_attribute_is_written(self, events, outcome, interp, env):
+    """Non-vacuity: the open tag (4 parts), `>` and the closing tag are written, each escaped
+    keyword property is written by a `write` of its own, and nothing is escaped twice."""
+    if outcome[0] != 'return':
+      return False
+    sinks = [e for e in events if e.kind == 'sink']
+    escapes = [e for e in events if e.kind == 'html.escape']
+    given = 1 + sum(interp.resolve(env[k]) is not None for k in ('title', 'css_classes', 'styles'))
+    # (an opaque value may itself be None, in which case it is skipped: hence `<=`)
+    return len(sinks) >= 6 and len(escapes) <= given and len(sinks) >= 6 + len(escapes) - sum(
+        interp.resolve(env[k]) is not None for k in ('css_classes', 'styles'))
+
+  def replay(self, obligation, m):
+    bad = []
+    nasty = 'x" onmouseover="alert(1)"><script>'
+    for what, kw in (('property', dict(title=nasty)), ('css_classes', dict(css_classes=[nasty])),
+                     ('styles', dict(styles=nasty)), ('styles dict', dict(styles=dict(color=nasty)))):
+      s = Html.element('div', **kw).content
+      inner = s[len('<div'):s.index('></div>')] if s.endswith('></div>') else s
+      if '<script>' in s or inner.count('"') != 2:
+        bad.append(f'{what}: {s!r}')
+    return dict(outcome='reproduced' if bad else 'not-reproduced',
+                detail='; '.join(bad) or 'attribute values are escaped with their quotes')
